@@ -78,6 +78,8 @@ class Net(torch.nn.Module):
         self.mid = torch.nn.Sequential(torch.nn.Sequential(torch.nn.Conv1d(3, 2, 1), TripAct()))
         self.bn = torch.nn.BatchNorm1d(2)
         self.lin = torch.nn.Linear(12, 2)
+        self.alias = torch.nn.ModuleList([self.stem[1]])      # the same activation instance reachable through a second parent
+        self._pos = None                                       # a tensor built lazily inside forward and kept (positional weights)
         with torch.no_grad():
             for p in self.parameters():
                 p.copy_(torch.randn(p.shape, generator=g) * 0.7)
@@ -85,7 +87,10 @@ class Net(torch.nn.Module):
 
     def forward(self, X, arg=None):
         tick("forward")
-        h = self.mid(self.stem(X))
+        L = X.shape[-1]
+        if self._pos is None or self._pos.shape[-1] != L:
+            self._pos = torch.linspace(0.5, 1.5, L).reshape(1, 1, L)
+        h = self.mid(self.stem(X * self._pos))
         y = self.lin(self.bn(h).flatten(1))
         if arg is not None:
             y = y + arg.reshape(-1, 1).type(y.dtype)
@@ -129,7 +134,7 @@ def alpha(model):
         TRIP.update(saved_t); COUNT.clear(); COUNT.update(saved_c)
         for m, f in zip(model.modules(), was):
             m.training = f
-    return dict(hooks=nh, sd=sd, po=po, pg=pg, training=bool(was[0]))
+    return dict(hooks=nh, sd=sd, po=po, pg=pg, training=bool(was[0]), modes=was)
 
 
 def plan(func, crash):
@@ -237,32 +242,44 @@ def run_one(model, func, crash):
 BASE = None
 
 
-def base_model():
+def base_model(kind=0):
+    """kind 0: a root in eval mode with a sub-module still in training mode (e.g. a freshly attached head): every call must run
+    the WHOLE model in eval mode, or BatchNorm's buffers change.  kind 1: a root in training mode with a frozen (eval) BatchNorm,
+    the usual fine-tuning recipe: a call may leave modules in eval mode but must not switch the frozen one to training."""
     global BASE
     if BASE is None:
         torch.manual_seed(0)
         BASE = Net()
-        BASE.eval()
-        BASE.bn.train()      # a root in eval mode with a sub-module still in training mode (e.g. a freshly attached head):
-        #                      every call must run the WHOLE model in eval mode, or BatchNorm's buffers change
-    return copy.deepcopy(BASE)
+    m = copy.deepcopy(BASE)
+    if kind == 0:
+        m.eval(); m.bn.train()
+    else:
+        m.train(); m.bn.eval()
+    return m
 
 
 def run_history(hist):
-    shared = base_model()
+    kind = base.crc(repr(hist).encode()) % 2
+    shared = base_model(kind)
     a0 = alpha(shared)
     evs = []
+    before = a0["modes"]
     for (func, crash) in hist:
-        fresh = base_model()
+        fresh = base_model(kind)          # never ran a forward pass: whatever it builds lazily is built inside the call
         rf = run_one(fresh, func, crash)
         if rf is None:
             evs.append(dict(func=func, crash=crash, realised=False))
             continue
+        af = alpha(fresh)
         rs = run_one(shared, func, crash)
         a1 = alpha(shared)
+        woke = any(now and not was for now, was in zip(a1["modes"], before)) or any(
+            now and not was for now, was in zip(af["modes"], a0["modes"]))
         evs.append(dict(func=func, crash=crash, realised=True, out=rs[0], res=rs[1], res_fresh=rf[1], out_fresh=rf[0],
                         hooks=a1["hooks"], sd_same=a1["sd"] == a0["sd"], probe_same=(a1["po"], a1["pg"]) == (a0["po"], a0["pg"]),
+                        fresh_probe_same=(af["po"], af["pg"]) == (a0["po"], a0["pg"]), woke=bool(woke), start_kind=kind,
                         training=a1["training"], counts=rs[2]))
+        before = a1["modes"]
     return evs
 
 
